@@ -528,7 +528,10 @@ def rule_castorder(ctx) -> RuleResult:
     if not ct or not isinstance(ct[-1], ast.Dict):
         raise AnalysisError("aggregate_numbagg.CAST_TO dict literal not found")
     WIDTH = {"np.bool_": (0, 1), "np.int8": (1, 1), "np.int16": (1, 2), "np.int32": (1, 4), "np.int64": (1, 8), "np.int_": (1, 8), "np.intp": (1, 8),
-             "np.float32": (2, 4), "np.float64": (2, 8), "np.datetime64": (1, 8), "np.timedelta64": (1, 8)}
+             "np.float32": (2, 4), "np.float64": (2, 8), "np.datetime64": (1, 8), "np.timedelta64": (1, 8),
+             # abstract scalar types (np.issubdtype keys): judged by their widest member
+             "np.integer": (1, 8), "np.signedinteger": (1, 8), "np.unsignedinteger": (1, 8), "np.floating": (2, 8), "np.uint8": (1, 1), "np.uint16": (1, 2),
+             "np.uint32": (1, 4), "np.uint64": (1, 8)}
     for k, v in zip(ct[-1].keys, ct[-1].values):
         if not isinstance(v, ast.Dict):
             continue
@@ -540,6 +543,17 @@ def rule_castorder(ctx) -> RuleResult:
                 res.report(f"aggregate_numbagg.CAST_TO|narrow|{norm(k)}|{norm(fr)}", f"flox/aggregate_numbagg.py:{fr.lineno}", "aggregate_numbagg.CAST_TO",
                            f"input cast {norm(fr)} -> {norm(to)} before accumulating does not widen")
     w = prog.func("aggregate_numbagg._numbagg_wrapper")
+    # the target dtype taken from the table is used as it is: re-binding the loop variable (e.g. float32 "because it holds every int16") narrows
+    # the accumulator of the kernel, which sums -- and squares -- in the dtype of its input
+    for lp in walk_own(w.node):
+        if isinstance(lp, ast.For) and isinstance(lp.iter, ast.Call) and norm(lp.iter.func).endswith(".items") and isinstance(lp.target, ast.Tuple):
+            tv = {e.id for e in lp.target.elts if isinstance(e, ast.Name)}
+            rebinds = [a for a in ast.walk(lp) if isinstance(a, ast.Assign) and any(isinstance(t, ast.Name) and t.id in tv for t in a.targets)]
+            res.inst(f"_numbagg_wrapper: cast targets of the table loop re-bound inside the loop: {len(rebinds)}", "numbagg-loop")
+            for a in rebinds:
+                res.report(f"aggregate_numbagg._numbagg_wrapper|cast-target-overridden|{norm(a.targets[0])}", w.where(a), w.qualname,
+                           f"'{norm(a)[:60]}' replaces the widening target taken from CAST_TO inside the loop: numbagg accumulates sums and sums of squares in the dtype of "
+                           "its input, so a narrower float (float32 for 16-bit integers) loses the low digits of nanmean / nanvar / nanstd although every input value is exact")
     casts = [c for c in calls_in(w.node) if isinstance(c.func, ast.Attribute) and c.func.attr == "astype"]
     for c in casts:
         recv = c.func.value
@@ -1903,4 +1917,62 @@ def rule_novalid(ctx) -> RuleResult:
                    f"'{norm(gathers[0])[:50]}' gathers at positions computed from {sorted(counts)} (valid members per group); for a group whose members are all NaN the "
                    "count is 0 and the positions point into the neighbouring groups, and no store masks such groups on the NaN-skipping path: nanmedian / "
                    "nanquantile return a value made of the neighbours' members (the default engine for medians) where NumPy returns NaN")
+    return res
+
+
+# ---------------------------------------------------------------------------------------------
+# R-PROMOTEIDEM (C11, C05): maybe_promote keeps every dtype that already has a missing value.
+# maybe_promote(dtype) answers "a dtype that can hold NaN / NaT, and that missing value".  Floating, complex, datetime64 and timedelta64
+# dtypes can: the function must hand them back unchanged.  The tail re-index of groupby_reduce runs AFTER the final cast, so a maybe_promote
+# that widens float32 to float64 makes the result dtype depend on the plan (cohorts / blockwise pass through that re-index, the eager path
+# and map-reduce do not).  The if/elif chain is evaluated over concrete dtypes with the frozen NumPy scalar hierarchy: in the arm taken by
+# a dtype that has its own missing value, `dtype` is not re-bound (or is re-bound to an expression that evaluates to the same dtype).
+_HAS_MISSING = {"float16": 2, "float32": 4, "float64": 8, "complex64": 8, "complex128": 16, "datetime64": 8, "timedelta64": 8}
+
+
+def rule_promoteidem(ctx) -> RuleResult:
+    res = RuleResult("R-PROMOTEIDEM", "maybe_promote returns dtypes that already have a missing value unchanged", min_instances=5)
+    f = ctx.prog.func("xrdtypes.maybe_promote")
+    dvar = f.params[0]
+    chain = next((st for st in f.node.body if isinstance(st, ast.If)), None)
+    if chain is None:
+        raise AnalysisError("xrdtypes.maybe_promote: no if/elif chain over dtype classes (anchor)")
+    arms = []
+    cur = chain
+    while isinstance(cur, ast.If):
+        arms.append((cur.test, cur.body))
+        cur = cur.orelse[0] if len(cur.orelse) == 1 and isinstance(cur.orelse[0], ast.If) else None
+    for tname, size in _HAS_MISSING.items():
+        anc = _np_ancestors(tname)
+        taken = None
+        for test, body in arms:
+            t = _dtype_class_test(test)
+            if t is None or t[0] != dvar:
+                continue
+            if {c.split(".")[-1] for c in t[1]} & anc:
+                taken = (test, body)
+                break
+        if taken is None:
+            res.inst(f"maybe_promote({tname}): no arm of the chain takes it (falls to the object branch) [UNDECIDED]", f"idem|{tname}")
+            res.notes.append(f"UNDECIDED: maybe_promote has no recognisable arm for {tname}")
+            continue
+        test, body = taken
+        rebinds = [a for b in body for a in ast.walk(b) if isinstance(a, ast.Assign) and any(norm(t_) == dvar for t_ in a.targets)]
+        changed = None
+        for a in rebinds:
+            v = a.value
+            # dtype = X if dtype.itemsize <= K else Y  -> evaluate for this itemsize
+            if isinstance(v, ast.IfExp) and isinstance(v.test, ast.Compare) and norm(v.test.left) == f"{dvar}.itemsize" and isinstance(v.test.comparators[0], ast.Constant):
+                k = v.test.comparators[0].value
+                op = v.test.ops[0]
+                hit = size <= k if isinstance(op, ast.LtE) else size < k if isinstance(op, ast.Lt) else size >= k if isinstance(op, ast.GtE) else size > k if isinstance(op, ast.Gt) else None
+                v = v.body if hit else v.orelse
+            got = norm(v).split(".")[-1].strip("'\"")
+            if got != tname and norm(v) != dvar:
+                changed = norm(a)
+        res.inst(f"maybe_promote({tname}): arm '{norm(test)[:50]}' re-binds the dtype to something else: {changed or False}", f"idem|{tname}")
+        if changed:
+            res.report(f"xrdtypes.maybe_promote|promotes-a-dtype-that-has-a-missing-value|{tname}", f.where(test), f.qualname,
+                       f"for {tname} the arm '{norm(test)[:60]}' executes '{changed[:50]}': the dtype already holds NaN / NaT and must come back unchanged; the re-index in the "
+                       "tail of groupby_reduce (after the final cast) then returns another dtype for cohorts / blockwise than for the eager and map-reduce plans")
     return res
